@@ -1092,6 +1092,6 @@ m('D4-by-class-lookup-asks-about-the-global-mode', 'C13', 'D4', 'registry.get/mo
         if cls is dict:""",
   """    if _C.is_dict_insertion_ordered(''):
         if cls is dict:""")
-m('H5-prefix-compares-node-data-by-identity', 'C07', 'H5', 'PyTreeSpec::IsPrefix/node_data/is_not', 'src/treespec/richcomparison.cpp',
+m('H5-prefix-compares-node-data-by-identity', 'C07', 'H5', 'PyTreeSpec::IsPrefix/node_data/is', 'src/treespec/richcomparison.cpp',
   """                if (a->kind != b->kind || (a->node_data && a->node_data.not_equal(b->node_data)))""",
-  """                if (a->kind != b->kind || (a->node_data && a->node_data.is_not(b->node_data)))""")
+  """                if (a->kind != b->kind || (a->node_data && !a->node_data.is(b->node_data)))""")
